@@ -69,6 +69,9 @@ class _Hang(BaseException):
     pass
 
 
+ENC_SECONDS = 3.0      # CPU seconds; encoding/validation never loops, the budget is only a backstop
+
+
 def guarded(fn, seconds=0.3):
     """Run fn() under a CPU-time watchdog (ITIMER_VIRTUAL: robust against the process being
     descheduled on a loaded machine; the decode loops are pure Python, so the signal handler
@@ -691,7 +694,7 @@ def observe_rows(ms, values, want_str=True):
         for name, m in (("", ms), ("s", ms2)):
             if m is None:
                 continue
-            st, r = guarded(lambda: m.validate_and_encode_row(v))
+            st, r = guarded(lambda: m.validate_and_encode_row(v), ENC_SECONDS)
             if st != "ok":
                 row["enc" + name] = {"exc": r} if st == "exc" else "HANG"
                 continue
@@ -743,7 +746,10 @@ def oracle_row(schema, tv, row, prefix=""):
     if bytes(enc) != exp:
         out.append((prefix + "layout", "encoded %r, the ordered binaryFormat fields give %r" % (bytes(enc), exp)))
     if dec == "HANG":
-        out.append((prefix + ("exhaust-zero-width-hang" if zero else "decode-hang"), "decode_row did not return"))
+        # a non-tail exhaust array can also feed the following fields' bytes to a length prefix
+        # (2^32 zero-width elements): not an infinite loop, but it does not return either
+        key = "exhaust-zero-width-hang" if zero else ("exhaust-nontail-roundtrip" if nontail else "decode-hang")
+        out.append((prefix + key, "decode_row did not return"))
         return out
     try:
         norm = tag(ref_norm(schema, v))
@@ -940,7 +946,10 @@ def coq_rows(schema, values, rows, cons="ok"):
     except Untranslatable:
         return None
     terms = ["cres_eqb (construct c12_t) %s" % CRES[cons]]
+    has, zero, nontail = exhaust_info(schema)
     for tv, row in zip(values, rows):
+        if row.get("dec") == "HANG" and not zero:
+            continue        # astronomically long finite loop (see oracle_row): the model would run it too
         try:
             oe = coq_oenc(row.get("enc"))
             od = coq_odec(schema, row["dec"]) if "dec" in row else "OSkip"
@@ -1207,7 +1216,7 @@ class StructExhaust(StructFamily):
                "values": [{"a": [[1], [2, 3]]}], "class": "nontail"}
         yield {"schema": S({"a": ex(ex(U8))}), "values": [{"a": [[1], [2, 3]]}], "class": "nontail"}
         yield {"schema": S({"a": ex(U8), "z": {"type": "string", "binaryFormat": "1s"}}), "values": [{"a": [1], "z": "q"}], "class": "nontail"}
-        n = 150 if tier == "quick" else 3000
+        n = 150 if tier == "quick" else 1500
         for i in range(n):
             s = gen_struct_schema(rng, depth=2, plain=True, objnull=False)
             if not s["properties"]:
@@ -1499,7 +1508,7 @@ class TablePaths(StructFamily):
             def setter():
                 tc2.metadata = untag(tv)
                 return list(tc2.metadata_bytes)
-            st, r = guarded(setter)
+            st, r = guarded(setter, ENC_SECONDS)
             if st == "ok":
                 st, d = guarded(lambda: tc2.metadata)
                 top.append({"enc": r, "dec": tag(d) if st == "ok" else ({"exc": d} if st == "exc" else "HANG")})
@@ -1895,7 +1904,7 @@ class JsonCodec(Family):
             for name, m in (("", ms), ("s", ms2 if st == "ok" else None)):
                 if m is None:
                     continue
-                st1, r = guarded(lambda: m.validate_and_encode_row(v))
+                st1, r = guarded(lambda: m.validate_and_encode_row(v), ENC_SECONDS)
                 if st1 != "ok":
                     row["enc" + name] = {"exc": r} if st1 == "exc" else "HANG"
                     continue
